@@ -88,8 +88,8 @@ Theorem C34_source_derived_eq : forall (E : Type) (now : Z) (errorf : string -> 
     (mkerr : string -> option E) (sprintf : string -> Z -> string),
   (forall m, mkerr m <> None) ->
   (forall s start t o,
-     gen_core (fst (CheckAndSet_Begin E now errorf (rep_cas s start) o)) = cas_core (fst (cas_step_obs s (CBegin t o))) /\
-     obs_of_err (snd (CheckAndSet_Begin E now errorf (rep_cas s start) o)) = snd (cas_step_obs s (CBegin t o))) /\
+     gen_core (fst (CheckAndSet_Begin E errorf now (rep_cas s start) o)) = cas_core (fst (cas_step_obs s (CBegin t o))) /\
+     obs_of_err (snd (CheckAndSet_Begin E errorf now (rep_cas s start) o)) = snd (cas_step_obs s (CBegin t o))) /\
   (forall s start t,
      gen_core (CheckAndSet_End (rep_cas s start)) = cas_core (fst (cas_step_obs s (CEnd t))) /\
      Ok = snd (cas_step_obs s (CEnd t))) /\
@@ -114,7 +114,7 @@ Theorem C34_source_derived_eq : forall (E : Type) (now : Z) (errorf : string -> 
      m_core (absorb_m s (fst r) []) = m_core (fst (mrsw_step_obs s (MUpgrade t o))) /\
      obs_of_res (snd r) = snd (mrsw_step_obs s (MUpgrade t o))) /\
   (forall s tg,
-     let r := ReadyTarget_Subscribe N nat (r_next s) N.leb (rep_rt s) tg in
+     let r := ReadyTarget_Subscribe N nat N.leb (r_next s) (rep_rt s) tg in
      fst (fst r) = rep_rt (rt_step s (RSub tg)) /\ snd (fst r) = r_next s /\
      (closes (snd r) ++ r_closed s)%list = r_closed (rt_step s (RSub tg))) /\
   (forall s ch, ReadyTarget_Unsubscribe N nat Nat.eqb (rep_rt s) ch = rep_rt (rt_step s (RUnsub ch))) /\
